@@ -409,7 +409,7 @@ class AsteriskToken(XPathToken):
                     return []
                 elif isinstance(op1, AbstractDateTime):
                     raise self.error('FODT0001', err) from None
-                elif isinstance(op1, Duration):
+                elif isinstance(op1, Duration) or isinstance(op2, Duration):
                     raise self.error('FODT0002', err) from None
                 else:
                     raise self.error('FOAR0002', err) from None
